@@ -486,6 +486,40 @@ def part_encoder_structure(ctx):
     return bad
 
 
+def part_templates(ctx, tie_ok):
+    """O-tie, semantic side: run the OBSERVED encoder templates of both pipelines inside Coq (SxEval / VxEval) on
+    dirty memory holding the vyper layout of generated values; they must return |enc|, leave enc at dst and touch
+    nothing outside [dst, dst+size_bound) -- the statement of venc_spec, now about the emitted IR."""
+    from vlib import c06_tpl as TP
+    from vlib import coqrun
+    fam = TP.shape_family()
+    r = ctx.rng("tplvals")
+    step = 2 if ctx.tier == "quick" else 1
+    exprs, meta = [], []
+    for i, t in enumerate(fam):
+        if i % step:
+            continue
+        vals = [A.gen_value(r, t, "max"), A.gen_value(r, t, "rand")]
+        ct = A.coq_ty(t)
+        cell = "; ".join(f"run_enc_tpl (snd (nth {i} obs_enc_l (TBool, SI 0))) {ct} {A.coq_val(t, v)}; "
+                         f"run_enc_tpl_v (snd (nth {i} obs_enc_v (TBool, SI 0))) {ct} {A.coq_val(t, v)}" for v in vals)
+        exprs.append("[" + cell + "]")
+        meta.append((t, vals))
+    imp = ("From Verif Require Import C06.Abi C06.Sexp C06.SxEval C06.VxEval C06.GenTplEncL C06.GenTplEncV.\n")
+    outs = coqrun.eval_zlists(imp, exprs, "c06tplrun", shard=8, timeout=400)
+    n = 0
+    for (t, vals), o in zip(meta, outs):
+        n += len(o)
+        if any(x != 1 for x in o):
+            report(ctx, "correspondence-broken", "an OBSERVED encoder template, executed in Coq, does not satisfy the encoder spec",
+                   {"shape": A.eth_ty(t), "coq_type": A.coq_ty(t), "values": [repr(v) for v in vals],
+                    "results [legacy v1, venom v1, legacy v2, venom v2] (1 ok, 0 wrong bytes/len/confinement, <0 evaluator)": o},
+                   "tplrun")
+    ctx.corr["template_family"] = len(fam)
+    ctx.corr["template_executions_in_coq"] = n
+    return n
+
+
 # ------------------------------------------------------------------ replay
 def do_replay(ctx):
     """re-execute exactly the recorded case on the current /repo tree and report whether it still fails"""
@@ -530,7 +564,8 @@ def run(ctx):
         (COQ / "C06" / "GenAbiSizes.v").write_text(G.generate(REPO / "vyper" / "abi_types.py", REPO / "vyper" / "utils.py"))
     except G.Unsupported as e:
         gen_err = str(e)
-    static = ["C06/Abi.v", "C06/AbiLemmas.v", "C06/Roundtrip.v", "C06/ZeroPad.v", "C06/Venc.v", "C06/VencProofs.v"]
+    static = ["C06/Abi.v", "C06/AbiLemmas.v", "C06/Roundtrip.v", "C06/ZeroPad.v", "C06/Venc.v", "C06/VencProofs.v",
+              "C06/Sexp.v", "C06/TplEncL.v", "C06/TplEncV.v", "C06/SxEval.v", "C06/VxEval.v"]
     b = {"ok": False, "file": "C06/GenAbiSizes.v", "failed_lemma": None, "out": gen_err}
     if gen_err is None:
         # static files are shared with C05/C12/C19 (coq/STATIC): rebuilt only when stale, so that a concurrently
@@ -538,6 +573,19 @@ def run(ctx):
         b = ctx.coq_build(static, force=False)
         if b["ok"]:
             b = ctx.coq_build(["C06/GenAbiSizes.v", "C06/SizesTie.v", "C06/PropsC06.v"])
+    # O-tie of the encoder templates: observed IR of both pipelines for the shape family
+    tie = {"ok": False}
+    tpl_err = None
+    try:
+        from vlib import c06_tpl as TP
+        TP.write_gen(COQ, "enc")
+        g = ctx.coq_build(["C06/GenTplEncL.v", "C06/GenTplEncV.v"])
+        if g["ok"]:
+            tie = ctx.coq_build(["C06/TieEnc.v"])
+        else:
+            tpl_err = "observed template tables do not compile: " + str(g.get("out"))[-300:]
+    except Exception as e:  # noqa
+        tpl_err = f"template export failed: {type(e).__name__}: {e}"[:400]
     # ---- 2. generated pairs; spec validation; real ABIType correspondence
     import time
     t0 = time.time()
@@ -561,6 +609,9 @@ def run(ctx):
     ctx.log(f"reasons: {time.time() - t0:.1f}s")
     zp_ok, zp = part_zero_pad_template(ctx)
     struct_bad = part_encoder_structure(ctx)
+    n_tpl = 0
+    if tpl_err is None:
+        n_tpl = part_templates(ctx, tie["ok"])
     found = any(v["kind"] == "failing-input" for v in ctx.violations) or ctx.known_hits
     # ---- verdicts for broken ties / proofs (after Search = the exits + size oracle above)
     if gen_err is not None:
@@ -575,6 +626,23 @@ def run(ctx):
             ctx.violation("correspondence-broken", "spec size functions disagree with real ABIType (no encoding exceeds the bound)",
                           {"type": A.eth_ty(t), "spec": got, "real": real})
             break
+    if tpl_err is not None:
+        ctx.violation("translator-rejected", "encoder template export: " + tpl_err, {"error": tpl_err})
+    elif not tie["ok"]:
+        from vlib import c06_tpl as TP
+        try:
+            fl, fv = TP.differing_shapes("enc")
+            fam = TP.shape_family()
+            dl = [A.eth_ty(t) for t, ok in zip(fam, fl) if not ok]
+            dv = [A.eth_ty(t) for t, ok in zip(fam, fv) if not ok]
+        except Exception as e:  # noqa
+            dl, dv = [f"(could not localise: {e})"], []
+        ctx.violation("correspondence-broken", f"{tie.get('failed_lemma')}: emitted encoder IR differs from the template model "
+                      f"(Tpl*.v) for {len(dl)} legacy / {len(dv)} venom shapes",
+                      {"theorem": tie.get("failed_lemma"), "legacy_shapes": dl[:12], "venom_shapes": dv[:12],
+                       "replay": "tools/vlib/c06_tpl.py export_legacy_enc / export_venom_enc on the listed shapes",
+                       "search": "observed templates executed in Coq + five exits on the EVM ran" +
+                                 ("; failing inputs reported" if found else "; no failing input")})
     for name, got, exp in struct_bad:
         ctx.violation("correspondence-broken", f"encoder source no longer matches the structural model (Venc.v): {name}",
                       {"function": name, "observed": got, "pinned": exp,
@@ -582,7 +650,7 @@ def run(ctx):
     if not zp_ok:
         ctx.violation("correspondence-broken", "core.zero_pad / venom _pre_zero_pad no longer match the templates modelled in ZeroPad.v",
                       {"observed": zp})
-    total = n_spec + n_exit + n_eth + n_reason
+    total = n_spec + n_exit + n_eth + n_reason + n_tpl
     ctx.corr["evaluations"] = total
     ctx.corr["distinct_nontrivial"] = n_exit + n_reason
     ctx.corr["types"] = len(pairs)
